@@ -178,7 +178,11 @@ func faultTemplates(seed int64, kmax int) []*exCase {
 						if nr > 0 {
 							evs = append(evs, exEvent{K: "R+"})
 						}
-						evs = append(evs, exEvent{K: "WC"}, exEvent{K: "WC"}, exEvent{K: "WF", A: (k + 5) % kmax}, exEvent{K: "WC"})
+						second := exEvent{K: "WF", A: (k + 5) % kmax}
+						if k%2 == 1 {
+							second = exEvent{K: "WM", A: k} // a commit rejected by the size limit (rollback before any page was written)
+						}
+						evs = append(evs, exEvent{K: "WC"}, exEvent{K: "WC"}, second, exEvent{K: "WC"})
 						for i := 0; i < nr+1; i++ {
 							evs = append(evs, exEvent{K: "R-o"})
 						}
